@@ -3,7 +3,8 @@
 Scope: def f(a, b=2, c=3) x bindings {1} x {2, 5, None} x {3, 7, 0} x every spelling (positional prefix of length 0..3,
 remaining parameters by keyword in every order, parameters bound to their default omitted or not), at run time
 (get_arg_ctx) and as literals seen in source (get_arg_ctx_ast); falsy defaults; 32 literal argument expressions
-(signed numbers, unary operators, containers, names): a static hash is either absent or the hash of the denoted value."""
+(signed numbers, unary operators, containers, names): a static hash is either absent or the hash of the denoted value;
+54 argument contexts: as_hashable is injective on them, relevant_keys as documented."""
 import json
 import sys
 
